@@ -303,7 +303,12 @@ def pp(draw, db, sys_elements, exclude):
         si = draw(st.sampled_from([0.0, 0.0, 0.0, None, None]))
         if si is None:
             si = draw(cg.uni(-3.0, 1.0, 3))
-        moles = draw(st.one_of(st.just(0.0), st.just(10.0), cg.logu(1e-6, 10.0, 3), cg.logu(1e-7, 1e-3, 3)))
+        moles = draw(st.one_of(st.just(0.0), st.just(10.0), cg.logu(1e-6, 10.0, 3), cg.logu(1e-7, 1e-3, 3),
+                               cg.logu(1e-13, 1e-9, 3)))
+        if nm not in pool_sys and draw(st.integers(0, 2)) == 0:
+            # trace amounts of a mineral that holds an element the solution lacks: the engine moves up to 1e-10/coef mol
+            # of such a mineral into solution before it equilibrates - but never more than is there
+            moles = draw(cg.logu(1e-13, 1e-9, 3))
         opt = draw(st.sampled_from(["", "", "", "", "dissolve_only", "precipitate_only"]))
         # -force_equality: "the phase must reach its target SI or the calculation fails with an error" - only drawn for
         # phases that hold enough mass to have a chance (everything else is a discard by definition)
@@ -599,6 +604,20 @@ def case_strategy(draw, dbs=("phreeqc.dat",)):
             s2["reaction"] = draw(reaction(db))
         if draw(st.integers(0, 2)) == 0 or not s2:
             s2["temps"] = [draw(cg.uni(0.0, 100.0, 3)) for _ in range(draw(st.integers(1, 3)))]
+        if "pp" in case and draw(st.integers(0, 2)) == 0:
+            # the saved assemblage gets new targets (and amounts) through EQUILIBRIUM_PHASES_MODIFY before it reacts again
+            mods = []
+            for i, p in enumerate(case["pp"]):
+                if p["alt"] or p["name"].endswith("(g)") or draw(st.booleans()):
+                    continue
+                tied = any(case.get(kd, {}).get("kind") == "phase" and p["name"] in (case[kd].get("phase"), case[kd].get("rel"))
+                           for kd in ("exch", "surf"))
+                newm = None
+                if not tied and draw(st.integers(0, 2)) == 0:
+                    newm = draw(st.one_of(st.just(0.0), cg.logu(1e-6, 10.0, 3)))
+                mods.append([i, draw(cg.uni(-3.0, 1.0, 3)), newm])
+            if mods:
+                s2["modify"] = mods
         case["stage2"] = s2
     return case
 
@@ -626,8 +645,13 @@ def punch_columns(case):
     return cols
 
 
-def render_punch(cols):
-    L = ["SELECTED_OUTPUT 1", " -reset false", " -state true", " -step true", "USER_PUNCH 1",
+def render_punch(cols, pp_names=()):
+    L = ["SELECTED_OUTPUT 1", " -reset false", " -state true", " -step true"]
+    if pp_names:
+        # amounts of the assemblage from the built-in columns (heading = phase name): the BASIC function EQUI() returns 0
+        # for a negative amount (and resets it), so it cannot show one
+        L.append(" -equilibrium_phases " + " ".join(pp_names))
+    L += ["USER_PUNCH 1",
          " -headings " + " ".join(c[0] for c in cols), " -start"]
     ln = 10
     for i in range(0, len(cols), 8):
@@ -692,10 +716,10 @@ def plan(case):
         defs.append("REACTION_TEMPERATURE %d\n " % n1 + " ".join(fmt(t) for t in case["temps"]))
     incr = "INCREMENTAL_REACTIONS %s" % ("true" if case["incr"] else "false")
     if cells:
-        t = defs + ["USE solution none", "END", incr, render_punch(cols), "RUN_CELLS\n -cells %d" % n1, "DUMP\n -all", "END"]
+        t = defs + ["USE solution none", "END", incr, render_punch(cols, [p["name"] for p in case.get("pp", [])]), "RUN_CELLS\n -cells %d" % n1, "DUMP\n -all", "END"]
         saved = n1
     else:
-        t = defs + [incr, render_punch(cols), "USE solution %d" % n1]
+        t = defs + [incr, render_punch(cols, [p["name"] for p in case.get("pp", [])]), "USE solution %d" % n1]
         # (reactants tied to a kinetic reactant must carry the number of the KINETICS block, which the engine always
         #  writes back to its own number: such cells are saved in place)
         saved = n1 if "kin" in case else n2
@@ -706,6 +730,14 @@ def plan(case):
         s2 = case["stage2"]
         n = saved
         t = []
+        if s2.get("modify"):
+            L = ["EQUILIBRIUM_PHASES_MODIFY %d" % n]
+            for i, si, moles in s2["modify"]:
+                L.append(" -component %s" % case["pp"][i]["name"])
+                L.append("  -si %s" % fmt(si))
+                if moles is not None:
+                    L.append("  -moles %s" % fmt(moles))
+            t += ["\n".join(L), "USE solution none", "END"]
         if "reaction" in s2:
             t.append(render_reaction(s2["reaction"], n))
         if "temps" in s2:
@@ -757,6 +789,7 @@ def history_strategy(draw, dbs=("phreeqc.dat",)):
                 sss.append(d)
             if sss:
                 c["ss"] = sss
+                c.get("stage2", {}).pop("modify", None)      # (indices refer to the assemblage as drawn)
                 if "pp" in c:
                     c["pp"] = [p for p in c["pp"] if p["name"] not in used]
                     tied = {c.get("exch", {}).get("phase"), c.get("surf", {}).get("rel") if c.get("surf", {}).get("kind") == "phase" else None}
